@@ -368,6 +368,7 @@ def c02(ctx):
         nrand = 6 if not ctx.thorough else 60
         for _ in range(nrand):
             hg = HistGen(ctx, name, e); ops = []
+            hg.vg.big = False   # every issued index is re-read after EVERY step: long items would make that quadratic
             c = hg.caps
             # a source region for reserve_regions
             for _ in range(ctx.rng.choice([0, 2, 5])): ops.append(hg.push(1))
